@@ -49,6 +49,11 @@ fn origin_strategy(origins: Vec<String>) -> impl Strategy<Value = Option<String>
         2 => (prop::sample::select(o4), any::<u16>(), any::<u16>()).prop_map(|(s, a, b)| { let cs: Vec<char> = s.chars().collect(); let i = crate::fw::util::pick_idx(a, cs.len()); let j = i + crate::fw::util::pick_idx(b, cs.len() - i + 1); Some(cs[i..j].iter().collect()) }),
         2 => prop::sample::select(o5).prop_map(|s| Some(s.to_uppercase())),
         1 => prop::sample::select(o6).prop_map(|s| Some(format!("{}x", s))),
+        // look-alikes of a configured origin: padded with blanks, trailing slash / dot / port, other scheme, userinfo and path tricks, repeated
+        3 => (prop::sample::select(origins.iter().cloned().chain(std::iter::once("https://a.example".to_string())).collect::<Vec<_>>()), 0u8..14).prop_map(|(s, k)| Some(match k {
+            0 => format!(" {}", s), 1 => format!("{} ", s), 2 => format!("\t{}", s), 3 => format!("{}/", s), 4 => format!("{}.", s), 5 => format!("{}:443", s),
+            6 => if let Some(r) = s.strip_prefix("https://") { format!("http://{}", r) } else { format!("https://{}", s.trim_start_matches("http://")) },
+            7 => format!("{}@evil.test", s), 8 => format!("https://evil.test/{}", s), 9 => format!("{} {}", s, s), 10 => format!("{}, {}", s, s), 11 => format!("{}\u{0}", s), 12 => format!("{}%20", s), _ => "null".to_string() })),
         1 => Just(Some(String::new())),
         1 => Just(Some(",".to_string())),
         2 => Just(Some(origins.join(","))),
@@ -150,7 +155,19 @@ pub fn eval(ctx: &Ctx, c: &Case) -> Verdict {
     let o = inproc::serve(&bytes, Transport::default(), 10000, AppKind::Real, Entry::Process);
     match (&o.result, mhttp::parse(&o.out)) {
         (Err((m, loc)), _) => problems.push((format!("panic:{}:{}", super::common::panic_module(loc), m), format!("Server::process panicked at {}", loc))),
-        (_, Ok(r)) => judge_headers(c, "Server::process", &r.headers, true, &mut problems),
+        (_, Ok(r)) => {
+            // on the wire optional blanks around a field value are not part of the value (RFC 7230 3.2): the server may see the Origin with or
+            // without its leading / trailing SP and HTAB - the grants must be right for one of the two readings
+            let mut raw = vec![];
+            judge_headers(c, "Server::process", &r.headers, true, &mut raw);
+            let trimmed = c.origin.as_ref().map(|o| o.trim_matches(|ch| ch == ' ' || ch == '\t').to_string());
+            if !raw.is_empty() && trimmed != c.origin {
+                let mut c2 = c.clone(); c2.origin = trimmed;
+                let mut alt = vec![];
+                judge_headers(&c2, "Server::process", &r.headers, true, &mut alt);
+                if !alt.is_empty() { problems.extend(raw); }
+            } else { problems.extend(raw); }
+        }
         (_, Err(p)) => problems.push((format!("unparseable-response:{}", p.sig), String::new())),
     }
     let switch_on = c.allow_all.unwrap_or(true);
